@@ -267,6 +267,9 @@ pub struct Giant {
     /// when set, the text is pseudo-random over ACGT from this seed instead of the repeated unit
     #[serde(default)]
     pub rand_seed: Option<u64>,
+    /// stretches of N: (start as a fraction of the length, number of bytes) - scaffold gaps of a kilobyte and more
+    #[serde(default)]
+    pub gaps: Vec<(u32, u32)>,
 }
 
 impl Giant {
@@ -291,6 +294,14 @@ impl Giant {
         } else {
             u.iter().cycle().take(self.len).copied().collect()
         };
+        for &(f, n) in &self.gaps {
+            if self.len > 0 {
+                let p = (((f as u128 * self.len as u128) >> 32) as usize).min(self.len - 1);
+                for x in out[p..(p + n as usize).min(self.len)].iter_mut() {
+                    *x = b'N';
+                }
+            }
+        }
         for &(f, b) in &self.edits {
             if self.len > 0 {
                 let p = ((f as u128 * self.len as u128) >> 32) as usize;
@@ -302,7 +313,7 @@ impl Giant {
     /// the description as the Python worker expects it
     pub fn to_json(&self) -> serde_json::Value {
         assert!(self.rand_seed.is_none(), "pseudo-random giants are sent expanded");
-        serde_json::json!({"unit": crate::pyworker::hex(&self.unit.0), "len": self.len, "edits": self.edits})
+        serde_json::json!({"unit": crate::pyworker::hex(&self.unit.0), "len": self.len, "edits": self.edits, "gaps": self.gaps})
     }
     pub fn label(&self) -> String {
         let l = self.len;
@@ -334,7 +345,7 @@ pub fn giant_near_one(hi: usize) -> BoxedStrategy<Giant> {
             if second {
                 edits.push((pos2, e2));
             }
-            Giant { unit: Bytes(vec![b]), len, edits, rand_seed: None }
+            Giant { unit: Bytes(vec![b]), len, edits, rand_seed: None, gaps: Vec::new() }
         })
         .boxed()
 }
@@ -357,13 +368,23 @@ pub fn giant(lo: usize, hi: usize, edit_bytes: Vec<u8>) -> BoxedStrategy<Giant> 
         4 => vec((pos.clone(), select(edit_bytes.clone())), 1).boxed(),
         3 => vec((pos, select(edit_bytes)), 2..=6).boxed(),
     ];
-    (unit, giant_len(lo, hi, GIANT_THRESHOLDS), edits).prop_map(|(unit, len, edits)| Giant { unit: Bytes(unit), len, edits, rand_seed: None }).boxed()
+    (unit, giant_len(lo, hi, GIANT_THRESHOLDS), edits, giant_gaps()).prop_map(|(unit, len, edits, gaps)| Giant { unit: Bytes(unit), len, edits, rand_seed: None, gaps }).boxed()
+}
+
+/// none (two thirds), or one to three stretches of N of a kilobyte and more (batch-wise iteration that takes an
+/// empty batch for the end of the input, statistics that treat a gap as a record boundary, ...)
+pub fn giant_gaps() -> BoxedStrategy<Vec<(u32, u32)>> {
+    prop_oneof![
+        2 => Just(Vec::new()),
+        1 => vec((any::<u32>(), prop_oneof![2 => select(vec![1023u32, 1024, 1025, 2047, 2048, 2049, 3000, 4096, 8192]), 1 => 1000u32..=70_000]), 1..=3),
+    ]
+    .boxed()
 }
 
 /// a pseudo-random giant sequence (no period) with a few point edits
 pub fn giant_random(lo: usize, hi: usize, edit_bytes: Vec<u8>) -> BoxedStrategy<Giant> {
     (any::<u64>(), giant_len(lo, hi, GIANT_THRESHOLDS), vec((any::<u32>(), select(edit_bytes)), 0..=4))
-        .prop_map(|(seed, len, edits)| Giant { unit: Bytes(Vec::new()), len, edits, rand_seed: Some(seed) })
+        .prop_map(|(seed, len, edits)| Giant { unit: Bytes(Vec::new()), len, edits, rand_seed: Some(seed), gaps: Vec::new() })
         .boxed()
 }
 
